@@ -76,10 +76,10 @@ type parkInfo struct {
 }
 
 type nodeRt struct {
-	elapsed time.Duration
-	parked  chan parkInfo
-	wake    chan struct{}
-	killed  bool
+	elapsed  time.Duration
+	parked   chan parkInfo
+	wake     chan struct{}
+	killed   bool
 	panicked string
 }
 
@@ -264,24 +264,24 @@ type col struct {
 }
 
 type bnode struct {
-	id     int // model id, 1-based
-	r      *rig
-	n      *sim.Node
-	props  *pengings.Proposals
-	votes  *pengings.Votes
-	h      *protocol.IdenaGossipHandler
-	eng    *consensus.Engine
-	peers  map[int]*protocol.VerifPeer        // peers[j]: the peer object that stands for node j at this handler
-	outbox map[int][]protocol.VerifFrame      // frames this node queued for node j, not delivered yet
-	rt     *nodeRt
-	addr   common.Address
-	seen   map[common.Hash128]bool // own announcements already reported
-	state  string                  // idle | sortwait | blockpoll | countpoll | getblock | done
-	curStep    int                 // step of the last vote-count poll
-	lastCount  int                 // number of Count events so far
-	votedR1    bool
-	pastSort   bool
-	lastPark   time.Duration
+	id            int // model id, 1-based
+	r             *rig
+	n             *sim.Node
+	props         *pengings.Proposals
+	votes         *pengings.Votes
+	h             *protocol.IdenaGossipHandler
+	eng           *consensus.Engine
+	peers         map[int]*protocol.VerifPeer   // peers[j]: the peer object that stands for node j at this handler
+	outbox        map[int][]protocol.VerifFrame // frames this node queued for node j, not delivered yet
+	rt            *nodeRt
+	addr          common.Address
+	seen          map[common.Hash128]bool // own announcements already reported
+	state         string                  // idle | sortwait | blockpoll | countpoll | getblock | done
+	curStep       int                     // step of the last vote-count poll
+	lastCount     int                     // number of Count events so far
+	votedR1       bool
+	pastSort      bool
+	lastPark      time.Duration
 	phaseReleases int // polls released in the wait the node is in (deliveries stop before the wait's last sleep)
 }
 
@@ -314,8 +314,9 @@ func (c *col) EnableCollecting() {
 	c.b.observe()
 }
 
-func (c *col) SubmitProofProposal(round uint64, hash common.Hash, proposerPubKey []byte, modifier int) {}
-func (c *col) SubmitBlockProposal(proposal *types.BlockProposal, receivingTime time.Time)          {}
+func (c *col) SubmitProofProposal(round uint64, hash common.Hash, proposerPubKey []byte, modifier int) {
+}
+func (c *col) SubmitBlockProposal(proposal *types.BlockProposal, receivingTime time.Time) {}
 
 func btoi(b bool) int {
 	if b {
@@ -402,22 +403,23 @@ func stepOrd(s uint8) int {
 type voteKey struct{ w, s, v int }
 
 type rig struct {
-	bs       *base
-	sn       *snap
-	nodes    []*bnode // index id-1
-	witness  *sim.Node
-	round    uint64
-	head     *types.Header
-	empty    common.Hash
-	codes    map[common.Hash]int // block hash -> value code (0 empty, p = block of proposer p)
-	blockOf  map[int]common.Hash
-	block128 map[int]common.Hash128
-	proof128 map[int]common.Hash128
-	vote128  map[voteKey]common.Hash128
-	ids      map[common.Address]int
-	out      *tr.W
-	caseId   int
+	bs        *base
+	sn        *snap
+	nodes     []*bnode // index id-1
+	witness   *sim.Node
+	round     uint64
+	head      *types.Header
+	empty     common.Hash
+	codes     map[common.Hash]int // block hash -> value code (0 empty, p = block of proposer p)
+	blockOf   map[int]common.Hash
+	block128  map[int]common.Hash128
+	proof128  map[int]common.Hash128
+	vote128   map[voteKey]common.Hash128
+	ids       map[common.Address]int
+	out       *tr.W
+	caseId    int
 	forgedSeq int
+	T, TF     int
 }
 
 func (r *rig) emit(m tr.M) {
@@ -466,6 +468,8 @@ func (bs *base) newRig(k int, out *tr.W, caseId int) *rig {
 	r.round = r.head.Height() + 1
 	r.empty = r.witness.Chain.GenerateEmptyBlock().Hash()
 	r.codes[r.empty] = 0
+	r.T = r.witness.Chain.GetCommitteeVotesThreshold(r.witness.App.ValidatorsCache, false)
+	r.TF = r.witness.Chain.GetCommitteeVotesThreshold(r.witness.App.ValidatorsCache, true)
 	// the engines' clock: every node starts MinBlockDistance after the head's timestamp
 	clk.mu.Lock()
 	clk.base = time.Unix(r.head.Time(), 0).Add(30 * time.Second)
@@ -908,6 +912,9 @@ func (r *rig) forgedVote(kind string, w, s, v int, to *bnode) {
 		hdr.ParentHash = r.head.ParentHash()
 	case "stranger":
 		keyIdx = r.bs.N
+	case "dupflag":
+		// a second, differently flagged signature of a member over a vote the node already holds: one voter, not two
+		hdr.Upgrade = 7
 	}
 	r.forgedSeq++
 	hdr.TurnOffline = false
@@ -1217,6 +1224,72 @@ func (r *rig) deliverFrame(a, to *bnode, f *protocol.VerifFrame) {
 	a.outbox[to.id] = box
 }
 
+// probe: the node counts a step and one more vote for some hash would complete the quorum.  It gets a vote that
+// must not count - a member's signature over another round or another parent, a stranger's signature, or a
+// second signature of a member whose vote it already holds - and nothing else before its timer fires.
+func (r *rig) probe(b *bnode, rng *rand.Rand, kinds []string) bool {
+	if b.state != "countpoll" || b.late() {
+		return false
+	}
+	m := b.votes.GetVotesOfRound(r.round)
+	if m == nil {
+		return false
+	}
+	by := map[int]map[int]bool{}
+	m.Range(func(_, val interface{}) bool {
+		vt := val.(*types.Vote)
+		id := r.idOf(vt.VoterAddr())
+		c := r.code(vt.Header.VotedHash)
+		if id != 0 && int(vt.Header.Step) == b.curStep && vt.Header.ParentHash == r.head.Hash() && c >= 0 && c != 99 {
+			if by[c] == nil {
+				by[c] = map[int]bool{}
+			}
+			by[c][id] = true
+		}
+		return true
+	})
+	need := r.T
+	if b.curStep == int(types.Final) {
+		need = r.TF
+	}
+	var vals []int
+	for c, set := range by {
+		if len(set) == need-1 {
+			vals = append(vals, c)
+		}
+	}
+	if len(vals) == 0 {
+		return false
+	}
+	sort.Ints(vals)
+	v := vals[rng.Intn(len(vals))]
+	var in, outside []int
+	for id := 1; id <= len(r.nodes); id++ {
+		if id == b.id {
+			continue
+		}
+		if by[v][id] {
+			in = append(in, id)
+		} else {
+			outside = append(outside, id)
+		}
+	}
+	kind := append([]string{"dupflag", "dupflag"}, kinds...)[rng.Intn(len(kinds)+2)]
+	if kind == "dupflag" {
+		if len(in) == 0 {
+			return false
+		}
+		r.forgedVote(kind, in[rng.Intn(len(in))], b.curStep, v, b)
+	} else {
+		if len(outside) == 0 {
+			return false
+		}
+		r.forgedVote(kind, outside[rng.Intn(len(outside))], b.curStep, v, b)
+	}
+	r.timeoutPhase(b)
+	return true
+}
+
 // ---------------------------------------------------------------------------------------------
 // seeded random schedules: asynchronous deliveries to subsets, early and late votes, forged votes
 
@@ -1272,12 +1345,17 @@ func (r *rig) randomRun(rng *rand.Rand) {
 			}
 		}
 		if rng.Float64() < pForge {
+			if r.probe(b, rng, forgeKinds) {
+				continue
+			}
+			// noise: a forged vote that completes nothing
 			w := 1 + rng.Intn(N)
 			v := 0
 			if len(r.blockOf) > 0 && rng.Intn(2) == 0 {
-				for p := range r.blockOf {
-					v = p
-					break
+				for p := 1; p <= N; p++ {
+					if _, ok := r.blockOf[p]; ok {
+						v = p
+					}
 				}
 			}
 			s := b.curStep
